@@ -464,7 +464,7 @@ func init() {
 			}
 			hook.Set(c08Hook)
 			calls := &c08Calls{m: map[string]int64{}}
-			reps := c.Pick(48, 960)
+			reps := c.Pick(96, 960)
 			for rep := 0; rep < reps; rep++ {
 				if rep%c.NShards != c.Shard {
 					continue
